@@ -1,0 +1,148 @@
+//! Read-only canonical dump of every index table (feature `verif`).
+
+use {
+  super::*,
+  redb::{Key, Value},
+};
+
+/// Every table and multimap of the index, read in one read transaction, as
+/// `(table name, sorted [(key bytes, value bytes)])`. Multimap values appear
+/// as one row per `(key, value)` pair.
+pub type Dump = Vec<(String, Vec<(Vec<u8>, Vec<u8>)>)>;
+
+fn table<K: Key + 'static, V: Value + 'static>(
+  rtx: &redb::ReadTransaction,
+  definition: TableDefinition<K, V>,
+  dump: &mut Dump,
+) -> Result {
+  let mut rows = Vec::new();
+
+  if let Ok(table) = rtx.open_table(definition) {
+    for row in table.iter()? {
+      let (key, value) = row?;
+      rows.push((
+        K::as_bytes(&key.value()).as_ref().to_vec(),
+        V::as_bytes(&value.value()).as_ref().to_vec(),
+      ));
+    }
+  }
+
+  rows.sort();
+
+  dump.push((definition.name().into(), rows));
+
+  Ok(())
+}
+
+fn multimap<K: Key + 'static, V: Key + 'static>(
+  rtx: &redb::ReadTransaction,
+  definition: MultimapTableDefinition<K, V>,
+  dump: &mut Dump,
+) -> Result {
+  let mut rows = Vec::new();
+
+  if let Ok(table) = rtx.open_multimap_table(definition) {
+    for row in table.iter()? {
+      let (key, values) = row?;
+      let key = K::as_bytes(&key.value()).as_ref().to_vec();
+      for value in values {
+        rows.push((key.clone(), V::as_bytes(&value?.value()).as_ref().to_vec()));
+      }
+    }
+  }
+
+  rows.sort();
+
+  dump.push((definition.name().into(), rows));
+
+  Ok(())
+}
+
+impl Index {
+  pub fn verif_dump(&self) -> Result<Dump> {
+    let rtx = self.database.begin_read()?;
+
+    let mut dump = Dump::new();
+
+    multimap(
+      &rtx,
+      LATEST_CHILD_SEQUENCE_NUMBER_TO_COLLECTION_SEQUENCE_NUMBER,
+      &mut dump,
+    )?;
+    multimap(&rtx, SAT_TO_SEQUENCE_NUMBER, &mut dump)?;
+    multimap(&rtx, SCRIPT_PUBKEY_TO_OUTPOINT, &mut dump)?;
+    multimap(&rtx, SEQUENCE_NUMBER_TO_CHILDREN, &mut dump)?;
+    table(
+      &rtx,
+      COLLECTION_SEQUENCE_NUMBER_TO_LATEST_CHILD_SEQUENCE_NUMBER,
+      &mut dump,
+    )?;
+    table(&rtx, GALLERY_SEQUENCE_NUMBERS, &mut dump)?;
+    table(&rtx, HEIGHT_TO_BLOCK_HEADER, &mut dump)?;
+    table(&rtx, HEIGHT_TO_LAST_SEQUENCE_NUMBER, &mut dump)?;
+    table(&rtx, HOME_INSCRIPTIONS, &mut dump)?;
+    table(&rtx, INSCRIPTION_ID_TO_SEQUENCE_NUMBER, &mut dump)?;
+    table(&rtx, INSCRIPTION_NUMBER_TO_SEQUENCE_NUMBER, &mut dump)?;
+    table(&rtx, NUMBER_TO_OFFER, &mut dump)?;
+    table(&rtx, OUTPOINT_TO_RUNE_BALANCES, &mut dump)?;
+    table(&rtx, OUTPOINT_TO_UTXO_ENTRY, &mut dump)?;
+    table(&rtx, RUNE_ID_TO_RUNE_ENTRY, &mut dump)?;
+    table(&rtx, RUNE_TO_RUNE_ID, &mut dump)?;
+    table(&rtx, SAT_TO_SATPOINT, &mut dump)?;
+    table(&rtx, SEQUENCE_NUMBER_TO_INSCRIPTION_ENTRY, &mut dump)?;
+    table(&rtx, SEQUENCE_NUMBER_TO_RUNE_ID, &mut dump)?;
+    table(&rtx, SEQUENCE_NUMBER_TO_SATPOINT, &mut dump)?;
+    table(&rtx, STATISTIC_TO_COUNT, &mut dump)?;
+    table(&rtx, TRANSACTION_ID_TO_RUNE, &mut dump)?;
+    table(&rtx, TRANSACTION_ID_TO_TRANSACTION, &mut dump)?;
+    table(
+      &rtx,
+      WRITE_TRANSACTION_STARTING_BLOCK_COUNT_TO_TIMESTAMP,
+      &mut dump,
+    )?;
+
+    Ok(dump)
+  }
+
+  /// Ids of the persistent savepoints currently stored. Opens and aborts a
+  /// write transaction; nothing is modified.
+  pub fn verif_savepoints(&self) -> Result<Vec<u64>> {
+    let wtx = self.database.begin_write()?;
+    let savepoints = wtx.list_persistent_savepoints()?.collect();
+    wtx.abort()?;
+    Ok(savepoints)
+  }
+
+  /// The decoded UTXO entry of `outpoint`: sat ranges (with the sat index),
+  /// value, script (with the address index) and `(sequence number, offset)`
+  /// of every inscription in it.
+  pub fn verif_utxo_entry(
+    &self,
+    outpoint: OutPoint,
+  ) -> Result<Option<(Vec<(u64, u64)>, u64, Option<Vec<u8>>, Vec<(u32, u64)>)>> {
+    let rtx = self.database.begin_read()?;
+    let table = rtx.open_table(OUTPOINT_TO_UTXO_ENTRY)?;
+    let Some(entry) = table.get(&outpoint.store())? else {
+      return Ok(None);
+    };
+    let entry = entry.value().parse(self);
+    let mut ranges = Vec::new();
+    if self.index_sats {
+      for chunk in entry.sat_ranges().chunks_exact(11) {
+        ranges.push(SatRange::load(chunk.try_into().unwrap()));
+      }
+    }
+    Ok(Some((
+      ranges,
+      entry.total_value(),
+      self
+        .index_addresses
+        .then(|| entry.script_pubkey().to_vec()),
+      if self.index_inscriptions {
+        entry.parse_inscriptions()
+      } else {
+        Vec::new()
+      },
+    )))
+  }
+}
